@@ -34,7 +34,7 @@ func solveLemma(lm *Lemma, pkg string, outDir string, timeoutMs int) *Result {
 	b.WriteString("(assert (not " + lm.Goal + "))\n(check-sat)\n")
 	dir := filepath.Join(outDir, "lemmas")
 	os.MkdirAll(dir, 0o755)
-	fname := filepath.Join(dir, sanitizeFile(lm.Name)+".smt2")
+	fname := uniquePath(dir, sanitizeFile(lm.Name), ".smt2")
 	os.WriteFile(fname, []byte(b.String()), 0o644)
 	res.File = fname
 	start := time.Now()
